@@ -24,6 +24,9 @@ CONSTANTS
   MaxStamp,         \* bound on opstamps (model checking only)
   MaxMerges,        \* concurrent merges
   AllowDeleteAll, AllowExplicitUncommittedMerge, AllowBatch, AllowReopen, AllowPrepare,
+  ExplicitMergeTarget,   \* "current" (code since the F6 repair: IndexWriter::merge on uncommitted segments draws a
+                         \* fresh stamp, as the policy merges do) | "commit" (the commit opstamp: the merged entry
+                         \* inherits its first source's cursor and the next commit applies pending deletes to everything)
   StrictTarget      \* TRUE: a delete belongs to a commit iff its opstamp is < the commit
                     \* opstamp (repaired code); FALSE: <= (code before the F0 repair)
 
@@ -284,12 +287,16 @@ PolicyMergeUncommitted ==
   /\ \E S \in SUBSET unc : StartMerge(unc, S, stamp)
   /\ stamp' = stamp + 1
   /\ UNCHANGED <<wCommitted, dq, dqFlushed, chan, wbuf, wcur, wfresh, unc, com, meta, prepared, wopen, nextId, nOps, pend, commd, lastRet, kf>>
-\* IndexWriter::merge on uncommitted segments: the target is the *commit* opstamp (finding F6)
+\* IndexWriter::merge on uncommitted segments (make_merge_operation)
 ExplicitMergeUncommitted ==
   /\ AllowExplicitUncommittedMerge /\ ~prepared.on
-  /\ \E S \in SUBSET unc : StartMerge(unc, S, meta.opstamp)
-  /\ kf' = TRUE
-  /\ UNCHANGED <<stamp, wCommitted, dq, dqFlushed, chan, wbuf, wcur, wfresh, unc, com, meta, prepared, wopen, nextId, nOps, pend, commd, lastRet>>
+  /\ IF ExplicitMergeTarget = "current"
+     THEN /\ stamp < MaxStamp
+          /\ \E S \in SUBSET unc : StartMerge(unc, S, stamp)
+          /\ stamp' = stamp + 1
+     ELSE /\ \E S \in SUBSET unc : StartMerge(unc, S, meta.opstamp)
+          /\ UNCHANGED stamp
+  /\ UNCHANGED <<wCommitted, dq, dqFlushed, chan, wbuf, wcur, wfresh, unc, com, meta, prepared, wopen, nextId, nOps, pend, commd, lastRet, kf>>
 
 SeqOfSet(S) == CHOOSE s \in [1..Cardinality(S) -> S] : \A i, j \in 1..Cardinality(S) : i < j => s[i].sid < s[j].sid
 
